@@ -4,7 +4,8 @@
    [acc]/[accv] are the oracles for teneva.accuracy / accuracy_on_data, [cb] is the callback. *)
 From Coq Require Import List Arith Lia PeanoNat Bool Permutation Reals.
 From TV Require Import Num.Ops Lin.Tab Lin.BigSum Lin.Solve TT.Chain Model.Als Model.AlsFunc
-  Proofs.AlsLin Proofs.AlsSim Proofs.AlsTop Proofs.AlsDesc Proofs.AlsWit Proofs.AlsFuncP Proofs.AlsAdaP Proofs.AlsFuncSim Proofs.AlsFuncDesc Proofs.AlsFuncPerm.
+  Proofs.AlsLin Proofs.AlsSim Proofs.AlsTop Proofs.AlsDesc Proofs.AlsWit Proofs.AlsFuncP Proofs.AlsAdaP Proofs.AlsFuncSim Proofs.AlsFuncDesc Proofs.AlsFuncPerm Proofs.AlsFuncCheb.
+From TV Require Model.Func Model.GridPoi.
 Import ListNotations.
 
 (* ================================================================== index version, constant rank *)
@@ -271,6 +272,32 @@ Theorem C07_als_func_last_core_optimal : forall solve, spd_solver solve -> foral
   let Yn := fY (Nat.iter (S n) (fsweep ORa solve lamb y H) (finit_st ORa H y A0)) in
   (fJobj ORa lamb H y Yn <= fJobj ORa lamb H y (upd 1 X Yn))%R.
 Proof. exact als_func_last_core_optimal. Qed.
+
+(* default entry path of als_func (fh=None): X, a, b -> poi_scale(kind='cheb') -> func_basis.  The basis matrices
+   are rectangular and hold T_i of the scaled, clipped points, for every box [a, b] and every point; so every theorem
+   about als_func applies, with the objective measured in that true Chebyshev basis *)
+Theorem C07_cheb_basis_wf : forall T (K : ops T) a b n d (X : list (list T)), Hwf (cheb_H K a b n d X) d (length X).
+Proof. exact @cheb_H_wf. Qed.
+Theorem C07_cheb_basis_entry : forall T (K : ops T) a b n d (X : list (list T)) k s i, k < d -> s < length X -> i < n ->
+  nth i (nth s (nth k (cheb_H K a b n d X) []) []) (o0 K)
+  = Func.chebT K (GridPoi.scale_cheb K a b (nth k (nth s X []) (o0 K))) i.
+Proof. exact @cheb_H_entry. Qed.
+Theorem C07_als_func_cheb_shape : forall T (K : ops T) solve acc accv X y (A0 : list (core T)) a b nswp e evld lamb fuel Y inf,
+  als_func_cheb K solve acc accv X y A0 a b nswp e evld lamb fuel = Ok (Y, inf) -> map dims Y = map dims A0.
+Proof. exact @als_func_cheb_shape. Qed.
+Theorem C07_als_func_cheb_descends : forall solve, spd_solver solve -> forall lamb, (0 < lamb)%R ->
+  forall X y (A0 : list (core R)) a b n, chain 1 A0 1 -> length y = length X ->
+  let H := cheb_H ORa a b (cn (nth O A0 dcore)) (length A0) X in
+  (fJobj ORa lamb H y (fY (Nat.iter (S n) (fsweep ORa solve lamb y H) (finit_st ORa H y A0)))
+   <= fJobj ORa lamb H y (fY (Nat.iter n (fsweep ORa solve lamb y H) (finit_st ORa H y A0))))%R.
+Proof. exact als_func_cheb_descent. Qed.
+Theorem C07_als_func_cheb_last_core_optimal : forall solve, spd_solver solve -> forall lamb, (0 < lamb)%R ->
+  forall X y (A0 : list (core R)) a b n Xc, chain 1 A0 1 -> length y = length X -> 2 <= length A0 ->
+  dims Xc = dims (nth 1 A0 dcore) ->
+  let H := cheb_H ORa a b (cn (nth O A0 dcore)) (length A0) X in
+  let Yn := fY (Nat.iter (S n) (fsweep ORa solve lamb y H) (finit_st ORa H y A0)) in
+  (fJobj ORa lamb H y Yn <= fJobj ORa lamb H y (upd 1 Xc Yn))%R.
+Proof. exact als_func_cheb_last_core_optimal. Qed.
 
 (* ================================================================== non-vacuity *)
 Example C07_example_hypotheses :
